@@ -505,3 +505,8 @@ def run(cx, rep):
         rep.ob("C09.4", "mangled-name-collision-check", dup_check,
                "the printed name of a named type goes through a many-to-one mangling (non-identifier characters of the file path become `_`) and no check compares printed names before they are used as keys of namedRuntypes: two files `a-b.ts` / `a_b.ts` exporting the same type name collapse into one definition",
                mang[0].loc())
+
+    # ---------------------------------------------------------------- C09.9
+    rep.rule("C09.9", "the type-side and value-side twins of name resolution agree")
+    import twins
+    twins.twin_rule(cx, rep, "C09.9", r"swc_tools/|frontend/", floor=6)
